@@ -538,8 +538,8 @@ def check_one(pid, tier):
                 undec_reasons.append("%s: vacuity probe not refuted at %s (%s): its contract is contradictory" % (r["unit"], it, cl))
     # thorough tier, leaf-level properties: the Kani twins run on the real crate as an independent cross-check (and of T6)
     kani_cc = []
-    KSETS = {"C16": ["tlv_roundtrip", "adpu_roundtrip", "llv_roundtrip", "lllv_roundtrip"],
-             "C04": ["adpu_roundtrip"],
+    KSETS = {"C16": ["tlv_roundtrip", "adpu_roundtrip", "llv_roundtrip", "lllv_roundtrip", "tlv_bare", "adpu_bare", "llv_bare", "lllv_bare"],
+             "C04": ["adpu_roundtrip", "adpu_bare"],
              "C17": ["le_u8_roundtrip", "le_u16_roundtrip", "le_u32_roundtrip", "le_u64_roundtrip", "le_usize_roundtrip", "be_u8_roundtrip", "be_u16_roundtrip",
                      "be_u32_roundtrip", "be_u64_roundtrip", "be_usize_roundtrip", "tag_default_roundtrip", "tag_be_roundtrip", "bcd_u8_roundtrip", "bcd_u16_roundtrip"],
              "C01": None}
